@@ -87,6 +87,12 @@ func runRemoteOrder(t testing.TB, k, m, nt int, rr *vgen.Rng) string {
 				rec.add(name, string(msg.Data)+"<"+snd)
 			}
 		}, "tgt", actor.WithID(name))
+		// a namesake with the same id on the SENDING engine: a PID that names the peer must never end up here
+		a.SpawnFunc(func(c *actor.Context) {
+			if msg, ok := c.Message().(*TestMessage); ok {
+				rec.add(name, "MISROUTED-TO-LOCAL-NAMESAKE:"+string(msg.Data))
+			}
+		}, "tgt", actor.WithID(name))
 	}
 	// plan: for sender s, message j goes to target plan[s][j]; odd senders attach a sender PID
 	plan := make([][]int, k)
@@ -257,6 +263,68 @@ func runRemoteUnreach(t testing.TB, n int) string {
 	mu.Unlock()
 	_ = okDown
 	return fmt.Sprintf("unreachable=%d dead=%d deadtags=%s later=%d", unreach, dead, strings.Join(tags, "."), later)
+}
+
+// reconnect: a connection that worked is lost because the peer goes away; the peer comes back on the same
+// address and later sends must reach it. byName: the peer is addressed by host name ("localhost:<port>").
+func runRemoteReconnect(t testing.TB, n int, byName bool) string {
+	a, ra, err := vRemoteEngine(vFreeAddr())
+	if err != nil {
+		return "setup-error"
+	}
+	defer func() { ra.Stop().Wait() }()
+	bAddr := vFreeAddr()
+	sendAddr := bAddr
+	if byName {
+		_, port, _ := net.SplitHostPort(bAddr)
+		sendAddr = "localhost:" + port
+	}
+	var mu sync.Mutex
+	got := map[byte]int{}
+	mkPeer := func() (*Remote, error) {
+		b, rb, err := vRemoteEngine(bAddr)
+		if err != nil {
+			return nil, err
+		}
+		b.SpawnFunc(func(c *actor.Context) {
+			if m, ok := c.Message().(*TestMessage); ok && len(m.Data) > 0 {
+				mu.Lock()
+				got[m.Data[0]]++
+				mu.Unlock()
+			}
+		}, "tgt", actor.WithID("x"))
+		return rb, nil
+	}
+	count := func(k byte) int { mu.Lock(); defer mu.Unlock(); return got[k] }
+	rb, err := mkPeer()
+	if err != nil {
+		return "setup-error"
+	}
+	evs := &vEvRec{pid: actor.NewPID(a.Address(), "verif/evrec")}
+	a.SpawnProc(evs)
+	a.Subscribe(evs.pid)
+	target := actor.NewPID(sendAddr, "tgt/x")
+	for i := 0; i < n; i++ {
+		a.Send(target, &TestMessage{Data: []byte("a" + strconv.Itoa(i))})
+	}
+	vWaitFor(func() bool { return count('a') >= n }, 8*time.Second)
+	first := count('a')
+	rb.Stop().Wait() // the peer goes away: the established connection is lost
+	reported := 0
+	if vWaitFor(func() bool { evs.mu.Lock(); defer evs.mu.Unlock(); return evs.unreach >= 1 }, 8*time.Second) {
+		reported = 1
+	}
+	time.Sleep(100 * time.Millisecond) // the router has handled the report
+	rb2, err := mkPeer()
+	if err != nil {
+		return fmt.Sprintf("first=%d reported=%d peer-setup-error", first, reported)
+	}
+	defer func() { rb2.Stop().Wait() }()
+	for i := 0; i < n; i++ {
+		a.Send(target, &TestMessage{Data: []byte("c" + strconv.Itoa(i))})
+	}
+	vWaitFor(func() bool { return count('c') >= n }, 8*time.Second)
+	return fmt.Sprintf("first=%d reported=%d later=%d", first, reported, count('c'))
 }
 
 // abort: the peer's reader ends the stream (a message whose type the receiver does not know) while the TCP
@@ -443,6 +511,9 @@ func TestVerifRemote(t *testing.T) {
 			w.Case(id, in, runRemoteUnreach(t, vgen.KVInt(in, "msgs", 1)))
 		case "abort":
 			w.Case(id, in, runRemoteAbort(t))
+		case "reconnect":
+			h, _ := vgen.KV(in, "host")
+			w.Case(id, in, runRemoteReconnect(t, vgen.KVInt(in, "msgs", 1), h == "name"))
 		case "state":
 			o, _ := vgen.KV(in, "ops")
 			w.Case(id, in, runRemoteState(t, strings.Split(o, ",")))
@@ -474,6 +545,8 @@ func TestVerifRemote(t *testing.T) {
 		run(fmt.Sprintf("u%d", i), fmt.Sprintf("kind=unreach msgs=%d", 1+r.Intn(12)), 0)
 	}
 	run("ab0", "kind=abort", 0)
+	run("rc0", fmt.Sprintf("kind=reconnect host=name msgs=%d", 1+r.Intn(5)), 0)
+	run("rc1", fmt.Sprintf("kind=reconnect host=ip msgs=%d", 1+r.Intn(5)), 0)
 	stateSeqs := []string{"start,dial,start,dial,stop,dial,stop,dial", "stop,start,dial,stop,stop,start,dial", "dial,start,stop,dial",
 		"start,probe,start2,probe,dial", "start,start2,start2,probe,stop,probe"}
 	for i := 0; i < vgen.Scale(4, 20); i++ {
